@@ -237,6 +237,35 @@ def run_witness(binpath, w):
             return {"cmd": "check --json <%d programs>" % len(items), "exit": 0, "stdout": "", "stderr": "",
                     "reproduced": bool(bad_items), "why": "; ".join(bad_items[:6])[:1500], "n_inputs": len(items),
                     "failing_inputs": [items[i]["src"] for i, r in enumerate(res) if r][:6]}
+        elif kind == "run-matrix":
+            # small programs that call `accept(VALUE)`: the runtime argument check must accept (prints
+            # "accepted") or reject (a Garden exception) as the item says
+            from concurrent.futures import ThreadPoolExecutor
+            items = w["input"]
+
+            def one(i):
+                it = items[i]
+                f = os.path.join(tmpdir, "r%d.gdn" % i)
+                open(f, "w", encoding="utf-8").write(it["src"])
+                try:
+                    p = subprocess.run([binpath, "run", f], capture_output=True, text=True, timeout=30, cwd=tmpdir)
+                except subprocess.TimeoutExpired:
+                    return "%s: timeout" % it.get("what", i)
+                o = p.stdout + p.stderr
+                if p.returncode == 101 or "panicked at" in o:
+                    return "%s: panicked" % it.get("what", i)
+                got = True if p.stdout.startswith("accepted") else (False if "Exception: Expected" in o else None)
+                if got is None:
+                    return "%s: unexpected output %r" % (it.get("what", i), o[-160:])
+                if got != bool(it["expect_accept"]):
+                    return "%s: %s, the property says %s" % (it.get("what", i), "accepted" if got else "rejected", "accept" if it["expect_accept"] else "reject")
+                return None
+            with ThreadPoolExecutor(max_workers=8) as ex:
+                res = list(ex.map(one, range(len(items))))
+            bad_items = [r for r in res if r]
+            return {"cmd": "run <%d programs>" % len(items), "exit": 0, "stdout": "", "stderr": "",
+                    "reproduced": bool(bad_items), "why": "; ".join(bad_items[:6])[:1500], "n_inputs": len(items),
+                    "failing_inputs": [items[i]["src"] for i, r in enumerate(res) if r][:6]}
         elif kind == "fix-corpus":
             # C22 bounded stand-in: run each program, apply `check --fix` until nothing changes,
             # require that the result still parses (no new error diagnostics), prints the same output
